@@ -22,7 +22,7 @@ import adaptive
 from harness import core
 from harness.core import f2b
 
-MODULES = ["AdaptiveProofs.Props.C16", "AdaptiveProofs.Props.C16Full", "AdaptiveProofs.Props.C16Loss"]
+MODULES = ["AdaptiveProofs.Props.C16", "AdaptiveProofs.Props.C16Full", "AdaptiveProofs.Props.C16Loss", "AdaptiveProofs.Props.C16LossValues"]
 
 
 def fb(x):
